@@ -275,6 +275,35 @@ fn pair_strategy(max_authors: usize, max_logs: usize, max_ops: usize) -> impl St
         .prop_map(|(world, proto, store, schedule)| PairCase { world, proto, store, schedule })
 }
 
+/// One author, 1-2 long logs (260-640 operations, tiny bodies) with a few prune points: a replica
+/// that received the log from a late prune point onwards holds a window that starts hundreds of
+/// sequence numbers above what the other replica has (seeded change C19d: range walked in windows
+/// of 256 sequence numbers, walk ended at the first empty window).
+fn long_pruned_strategy() -> impl Strategy<Value = PairCase> {
+    let op = (prop::bool::weighted(0.006), 0u8..=2).prop_map(|(prune, body)| crate::world::OpSpec { prune, body });
+    let log = (prop::collection::vec(op, 260..=640), crate::world::hold(), crate::world::hold(), any::<bool>()).prop_map(|(mut ops, a, b, late)| {
+        // At least one prune point in the upper part of the log.
+        let n = ops.len();
+        if late {
+            ops[n - 1 - (n / 8)].prune = true;
+        }
+        crate::world::LogSpec { other_topic: false, ops, a, b }
+    });
+    (
+        prop::collection::vec(log, 1..=2),
+        prop_oneof![2 => Just(0u8), 2 => Just(1u8), 3 => Just(7u8)],
+        prop_oneof![2 => Just(0u8), 1 => Just(1u8), 2 => Just(2u8)],
+        prop_oneof![1 => Just(0u8), 1 => Just(1u8)],
+        prop::collection::vec(any::<bool>(), 0..24),
+    )
+        .prop_map(|(logs, empty_side, proto, store, schedule)| PairCase {
+            world: WorldSpec { authors: vec![crate::world::AuthorSpec { logs }], empty_side },
+            proto,
+            store,
+            schedule,
+        })
+}
+
 // ---------------------------------------------------------------------------------------------
 // Scripted remote with repeated operations
 
@@ -459,6 +488,18 @@ pub fn run(mut ctx: Ctx) -> ! {
         )
         .min_nontrivial(0.3),
         move || pair_strategy(2, 6, 4),
+        check_pair,
+    );
+    // Long logs with late prune points (added after seeded change C19d).
+    ctx.run_prop(
+        Part::new(
+            "pair_long_pruned",
+            "as `pair`, but one author x 1-2 logs of 260-640 operations (tiny bodies) with prune points (0.6 % per operation plus, in half the cases, one in the last eighth): a replica's retained window may start hundreds of sequence numbers above the other replica's height; non-trivial = both sides must send something or a side holds a pruned window",
+            80,
+            2_500,
+        )
+        .min_nontrivial(0.3),
+        long_pruned_strategy,
         check_pair,
     );
     ctx.run_prop(
